@@ -46,7 +46,8 @@ def ENCODED():
             __import__("ethosu.vela.tflite_graph_optimiser", fromlist=["x"]).convert_resizenn_ac_to_depthwise_conv,
             __import__("ethosu.vela.tensor", fromlist=["x"]).QuantizationParameters.is_per_axis,
             __import__("ethosu.vela.tensor", fromlist=["x"]).QuantizationParameters.is_scaling_equal,
-            T.constraint_tens_quant_per_axis, T.constraint_matching_quantization_parameters]
+            T.constraint_tens_quant_per_axis, T.constraint_matching_quantization_parameters,
+            __import__("ethosu.vela.tflite_reader", fromlist=["x"]).TFLiteSubgraph.parse_tensor]
 
 
 class _O:
@@ -515,6 +516,81 @@ def t_resize_lowering(V, **params):
     return [("the lowering ends without an internal exception", True)]
 
 
+def tensor_types_total(V):
+    """reading a tensor never aborts: the REAL TFLiteSubgraph.parse_tensor for every element type of the schema's TensorType enumeration (symbolic
+    choice), with a constant buffer behind it or not, quantised or not, rank 0..2: it returns a tensor (or raises a Vela error) - an element type
+    missing from one of the reader's two type tables is a KeyError, which main() does not turn into a diagnosis."""
+    import numpy as np
+    import ethosu.vela.tflite_reader as tr
+    from ethosu.vela.errors import VelaError
+    from ethosu.vela.tflite.TensorType import TensorType
+
+    types = tuple(sorted(n for n in vars(TensorType) if n.isupper()))
+    tname = V.choice("tensor type", types)
+    constant = V.choice("tensor is a constant", (True, False))
+    quantised = V.choice("quantised", (True, False))
+    rank = V.choice("rank", (0, 1, 2))
+    shape = [2] * rank
+    code = getattr(TensorType, tname)
+
+    class Quant:
+        def MinAsNumpy(self):
+            return 0
+
+        MaxAsNumpy = MinAsNumpy
+
+        def ScaleAsNumpy(self):
+            return np.array([0.5], dtype=np.float32)
+
+        def ZeroPointAsNumpy(self):
+            return np.array([0], dtype=np.int64)
+
+        def QuantizedDimension(self):
+            return 0
+
+    class TensData:
+        def ShapeAsNumpy(self):
+            return np.array(shape, dtype=np.int32) if rank else 0
+
+        def Name(self):
+            return b"t"
+
+        def Type(self):
+            return code
+
+        def Quantization(self):
+            return Quant() if quantised else None
+
+        def IsVariable(self):
+            return False
+
+        def Buffer(self):
+            return 1 if constant else 0
+
+    size = {"FLOAT32": 4, "FLOAT16": 2, "INT32": 4, "UINT8": 1, "INT64": 8, "STRING": 1, "BOOL": 1, "INT16": 2, "COMPLEX64": 8, "INT8": 1, "FLOAT64": 8,
+            "COMPLEX128": 16, "UINT64": 8, "UINT32": 4, "UINT16": 2}
+    n = 2 ** rank
+    if constant and tname in ("RESOURCE", "VARIANT"):
+        return None  # handles, never constants
+    nbytes = (n + 1) // 2 if tname == "INT4" else n * size.get(tname, 1)  # TFLite packs two 4-bit values per byte
+    me = _O(graph=_O(buffers=[None, np.zeros(nbytes, dtype=np.uint8)]), len1_array_to_scalar=tr.TFLiteSubgraph.len1_array_to_scalar)
+    fid = "C13-int4-constant-tensor-keyerror"
+    tag = "[%s] " % fid if (tname == "INT4" and constant) else ""
+    try:
+        t = tr.TFLiteSubgraph.parse_tensor(me, TensData())
+    except VelaError:
+        return [("a tensor the reader cannot represent is reported as a Vela error", True)]
+    except (ValueError, TypeError) as e:
+        # 64 bytes that are not a whole number of elements of this shape: main() reports struct/Type/Runtime errors of the reader as 'Invalid tflite file'
+        return None if isinstance(e, TypeError) else [("%sa %s tensor (constant: %s) is read without an internal ValueError (%s)" % (tag, tname, constant, e), V.except_finding(fid, tname == "INT4" and constant, False))]
+    except Exception as e:  # noqa: BLE001
+        if isinstance(e, (core.PathAbort, core.Infeasible, core.Inconclusive)):
+            raise
+        return [("%sa %s tensor (constant: %s) is read without an internal %s (%s)" % (tag, tname, constant, type(e).__name__, e),
+                 V.except_finding(fid, tname == "INT4" and constant, False))]
+    return [("%sa %s tensor is read" % (tag, tname), t is not None and (t.values is not None) == constant)]
+
+
 def custom_options_total(V):
     """a third-party CUSTOM operator passes through unchanged whatever its options are: the REAL CustomOptionsSerializer.deserialize on a stand-in
     flatbuffer operator whose custom options are absent (the generated accessor then returns 0) or hold 0..3 bytes (symbolic choices), followed by
@@ -543,7 +619,7 @@ def custom_options_total(V):
     return [("the bytes written are the bytes read", written == [bytes(data)])]
 
 
-FUNCS = {"t_resize_lowering": t_resize_lowering, "t_per_axis": t_per_axis, "fold_disconnect": fold_disconnect, "custom_options_total": custom_options_total, "summary_total": summary_total, "writer_total": writer_total, "purpose_total": purpose_total, "t_quant_scales": t_quant_scales, "main_config": main_config, "t_c16": t_c16, "snapshot_dtype": snapshot_dtype, "buffering_arith": buffering_arith, "t_resize": t_resize, "t_strides": t_strides, "t_broadcast": t_broadcast,
+FUNCS = {"tensor_types_total": tensor_types_total, "t_resize_lowering": t_resize_lowering, "t_per_axis": t_per_axis, "fold_disconnect": fold_disconnect, "custom_options_total": custom_options_total, "summary_total": summary_total, "writer_total": writer_total, "purpose_total": purpose_total, "t_quant_scales": t_quant_scales, "main_config": main_config, "t_c16": t_c16, "snapshot_dtype": snapshot_dtype, "buffering_arith": buffering_arith, "t_resize": t_resize, "t_strides": t_strides, "t_broadcast": t_broadcast,
          "t_tconv": t_tconv, "main_errors": main_errors}
 
 
@@ -565,6 +641,7 @@ def instances(tier, seed):
     out.append(dict(key="summary_total", fn="summary_total", params={}))
     out.append(dict(key="custom_options_total", fn="custom_options_total", params={}))
     out.append(dict(key="t_per_axis", fn="t_per_axis", params={}))
+    out.append(dict(key="tensor_types_total", fn="tensor_types_total", params={}))
     for kind in ("bilinear", "bilinear_align_corners", "nearest", "nearest_align_corners"):
         for factor in (2, 4, 8):
             out.append(dict(key="t_resize_lowering/%s/x%d" % (kind, factor), fn="t_resize_lowering", params=dict(kind=kind, factor=factor)))
